@@ -310,12 +310,19 @@ def run_spellings(ctx):
     sb.put_value('Calc', 2, 1, 7)
     sb.put_value('Rates', 1, 1, 0.2)
     sb.put_value('Rates', 1, 2, 5)
-    sb.names = [('Rate', 'Rates!$A$1'), ('Bonus', 'Rates!$A$2')]
+    sb.names = [('Rate', 'Rates!$A$1'), ('Bonus', 'Rates!$A$2'),
+                # names spelt like a column and a row (beyond column XFD, so
+                # they are names, not addresses), and a named range whose
+                # members are also reached by plain address
+                ('YTD1', 'Rates!$A$1:$A$2'), ('ZZZ9', 'Rates!$A$2'),
+                ('Pair', 'Rates!$A$1:$A$2')]
     for i, f in enumerate(['=A1*Rate', '=A1*rate', '=B1*RATE+Bonus', '=A3+A4',
-                           '=A1*Rate+bonus', '=SUM(A3:A7)+BONUS'], start=3):
+                           '=A1*Rate+bonus', '=SUM(A3:A7)+BONUS',
+                           '=SUM(YTD1)*ZZZ9', '=Rates!A1*B1',
+                           '=SUM(Rates!A1:A2)+A1', '=ZZZ9+Rates!A2'], start=3):
         sb.put_formula('Calc', 1, i, f)
     books.append(('names in another letter case', sb,
-                  [f'Calc!A{i}' for i in range(3, 9)],
+                  [f'Calc!A{i}' for i in range(3, 13)],
                   ['Calc!A1', 'Calc!B1', 'Rates!A1', 'Rates!A2']))
     # (b) the same formula texts on sheets laid out alike
     sb = xlsxw.SheetBuilder()
@@ -364,7 +371,18 @@ def run_spellings(ctx):
                     v = rng.choice([3, 11, 0.5, 40])
                     ev_o.set_cell_value(a, v)
                     if a in extracted.cells:
-                        ev_x.set_cell_value(a, v)
+                        try:
+                            ev_x.set_cell_value(a, v)
+                        except Exception as e:  # noqa
+                            ctx.fail(f'workbook "{label}", focus {focus}: '
+                                     f'set_cell_value({a!r}, {v}) on the '
+                                     f'extracted model raised '
+                                     f'{type(e).__name__}: {str(e)[:120]}',
+                                     {'workbook': label, 'focus': focus,
+                                      'address': a},
+                                     monitor='extract-raises',
+                                     group='spellings-set-raises')
+                            break
                 bad = []
                 for c in focus:
                     go = subject.outcome_of(lambda: ev_o.evaluate(c))
